@@ -4182,6 +4182,34 @@ pub mod verif {
 			p.block_1digit_pattern.is_match(text)];
 	}
 
+	/// Runs only the mrow parser (`canonicalize_mrows`) on `mathml`: no validation, no clean-up.
+	pub fn parse_rows(mathml: Element) -> Result<Element> {
+		return CanonicalizeContext::new().canonicalize_mrows(mathml);
+	}
+
+	/// Runs validation and clean-up (`assure_mathml`, `clean_mathml`, `assure_nary_tag_has_one_child`) without the mrow parser.
+	pub fn clean_only(mathml: Element) -> Result<Element> {
+		let context = CanonicalizeContext::new();
+		CanonicalizeContext::assure_mathml(mathml)?;
+		let mathml = match context.clean_mathml(mathml) {
+			Some(mathml) => mathml,
+			None => bail!("clean_mathml removed the element"),
+		};
+		context.assure_nary_tag_has_one_child(mathml);
+		return Ok(mathml);
+	}
+
+	/// The members of a definitions set of the speech definitions (sorted); None when there is no such set.
+	pub fn definitions_set(name: &str) -> Option<Vec<String>> {
+		return crate::definitions::SPEECH_DEFINITIONS.with(|defs| {
+			let defs = defs.borrow();
+			let set = defs.get_hashset(name)?;
+			let mut members: Vec<String> = set.iter().cloned().collect();
+			members.sort();
+			return Some(members);
+		});
+	}
+
 	/// Runs `canonicalize_plane1` on `<mi mathvariant=variant>text</mi>` (no attribute when `variant` is None) and returns the new text.
 	pub fn plane1(text: &str, variant: Option<&str>) -> String {
 		let package = sxd_document::Package::new();
